@@ -162,6 +162,69 @@ def run(c):
     return {"nontrivial": (not uniform or d[0] != 0) and nz_dirs >= 2, "classes": classes}
 
 
+# ----------------------------------------------------------------------------- large batches
+@st.composite
+def large_case(draw):
+    """Hundreds to thousands of spectra in one object (a month of buoy records, a model field): the case holds the
+    sizes and a seed, the densities are expanded from it (numpy generator seeded by a drawn value)."""
+    nd = draw(st.sampled_from([24, 36, 16]))
+    return {"n": draw(st.sampled_from([160, 300, 700, 1500])), "nf": draw(st.integers(20, 40)), "nd": nd,
+            "t0": draw(st.sampled_from([0.0, 360.0 / nd / 2, 7.0])), "seed": draw(st.integers(0, 2 ** 32 - 1)),
+            "nan_fraction": draw(st.sampled_from([0.0, 0.02, 0.1])), "layout": draw(st.sampled_from(["t", "tl"]))}
+
+
+def run_large(c):
+    n, nf, nd = c["n"], c["nf"], c["nd"]
+    rng = np.random.default_rng(c["seed"])
+    f = 0.03 + 0.01 * np.arange(nf)
+    d = c["t0"] + np.arange(nd) * 360.0 / nd
+    E = rng.uniform(0.0, 1.0, (n, nf, nd)) * np.exp(-((f[None, :, None] - 0.1) / 0.05) ** 2)
+    if c["nan_fraction"]:
+        E[rng.uniform(size=E.shape) < c["nan_fraction"]] = np.nan
+    t = np.datetime64("2022-01-01T00:00:00") + np.arange(n) * np.timedelta64(1800, "s")
+    import xarray
+    from ocean_science_utilities.wavespectra.spectrum import FrequencyDirectionSpectrum
+    if c["layout"] == "tl" and n % 4 == 0:
+        shape = (n // 4, 4)
+        lead = ("time", "latitude")
+        coords = {"time": t[: n // 4], "latitude": np.arange(4.0), "frequency": f, "direction": d}
+        dv = {"longitude": (lead, np.zeros(shape)), "depth": (lead, np.full(shape, np.inf))}
+    else:
+        shape = (n,)
+        lead = ("time",)
+        coords = {"time": t, "frequency": f, "direction": d}
+        dv = {"latitude": (lead, np.zeros(n)), "longitude": (lead, np.zeros(n)), "depth": (lead, np.full(n, np.inf))}
+    dv["variance_density"] = (lead + ("frequency", "direction"), E.reshape(shape + (nf, nd)))
+    spec = FrequencyDirectionSpectrum(xarray.Dataset(data_vars=dv, coords=coords))
+    w = O.dir_steps(d)
+    e, ra1, rb1, ra2, rb2 = O.moments_2d(E, d)
+    abs_e = np.nansum(np.abs(E) * w, axis=-1)
+    g_e = _arr(spec.e).astype(float)
+    require(g_e.shape == shape + (nf,), "e_shape", f"{g_e.shape}")
+    ok = O.close(g_e.reshape(n, nf), e, rel=1e-12, abs_=1e-300, scale=abs_e)
+    require(ok.all(), "e_equals_direction_sum",
+            lambda: f"{n} spectra x {nf} x {nd}: {int((~ok).sum())} rows differ, first at spectrum {int(np.argwhere(~ok)[0][0])}: "
+                    f"got={g_e.reshape(n, nf)[~ok][:2]!r} ref={e[~ok][:2]!r}")
+    pos = e > 0
+    for name, ref in (("a1", ra1), ("b1", rb1), ("a2", ra2), ("b2", rb2)):
+        g = _arr(getattr(spec, name)).astype(float).reshape(n, nf)
+        ok = O.close(g, ref, rel=0, abs_=1e-11) | ~pos
+        require(ok.all(), f"{name}_equals_weighted_sum",
+                lambda: f"{n} spectra: first at spectrum {int(np.argwhere(~ok)[0][0])}: got={g[~ok][:2]!r} ref={ref[~ok][:2]!r}")
+    s1 = spec.as_frequency_spectrum()
+    v1 = _arr(s1.variance_density).astype(float)
+    require(v1.shape == shape + (nf,) and O.close(v1.reshape(n, nf), e, rel=1e-12, abs_=1e-300, scale=abs_e).all(),
+            "reduction_variance_density_is_e", f"{n} spectra: shape={v1.shape}")
+    h2 = _arr(spec.hm0()).astype(float).reshape(-1)
+    h1 = _arr(s1.hm0()).astype(float).reshape(-1)
+    require(np.allclose(h1, h2, rtol=1e-12, atol=0), "bulk_hm0_preserved", f"{n} spectra")
+    classes = [f"spectra_{n}", "rows_" + ("over" if n * nf > 2 ** 20 // (8 * nd) else "under") + "_one_MiB_of_direction_rows"]
+    if c["nan_fraction"]:
+        classes.append("has_nan")
+    return {"nontrivial": True, "classes": classes}
+
+
 SUBCHECKS = [
     SubCheck("direction_integration", lambda tier: case(), run, {"quick": 400, "thorough": 3000}),
+    SubCheck("large_batches", lambda tier: large_case(), run_large, {"quick": 12, "thorough": 60}),
 ]
